@@ -135,6 +135,14 @@ def shortfall (o : Bounds) (tb fb : Rat) (r : Bounds) : List Rat :=
   [rel (r.st - max (o.st - tb) 0) tb, rel (r.lo - max (o.lo - fb) 0) fb,
    rel (o.en + tb - r.en) tb, rel (min (o.hi + fb) MAXF - r.hi) fb]
 
+/-- `shortfall` beyond the monitor's floating-point slack (`bufferPostTol tol` holds iff all four are 0) -/
+def shortfallTol (tol : Rat) (o : Bounds) (tb fb : Rat) (r : Bounds) : List Rat :=
+  let rel (d b : Rat) : Rat := if d ≤ 0 then 0 else if b = 0 then d else d / b
+  [rel (r.st - max (o.st - tb) 0 - slack tol (max (o.st - tb) 0)) tb,
+   rel (r.lo - max (o.lo - fb) 0 - slack tol (max (o.lo - fb) 0)) fb,
+   rel (o.en + tb - slack tol (o.en + tb) - r.en) tb,
+   rel (min (o.hi + fb) MAXF - slack tol (min (o.hi + fb) MAXF) - r.hi) fb]
+
 /-! ### the shapely pipeline `buffer_shapely_geometry`, on point sets
 
     factor      = [1 / tb if tb > 0 else 1e9, 1 / fb if fb > 0 else 1e9]
